@@ -1723,7 +1723,7 @@ func (f *Frame) siteMapUpdate(x *ssa.MapUpdate, h, k, v Val) {
 			}
 		}
 	}
-	f.flagEvent("mapupdate:" + fieldPat)
+	defer f.flagEvent("mapupdate:" + fieldPat)
 	for _, s := range f.rootContract().Sites {
 		if s.Kind != "mapupdate" || s.Pattern != fieldPat {
 			continue
@@ -1744,7 +1744,7 @@ func (f *Frame) siteMapUpdate(x *ssa.MapUpdate, h, k, v Val) {
 
 func (f *Frame) siteCall(c *ssa.CallCommon, pos token.Pos) {
 	rc := f.rootContract()
-	f.flagEvent("call:" + shortCallee(c))
+	defer f.flagEvent("call:" + shortCallee(c)) // the event takes effect after the site conditions were evaluated
 	if len(rc.Sites) == 0 {
 		return
 	}
